@@ -465,7 +465,7 @@ def oracle(cs, d):
                 doubled=lnp == X, redoubled=lnp == XX, turn=(d - 1 + k) % 4 + 1)
 
 
-def case_bmc(props, dealer, K, first=None):
+def case_bmc(props, dealer, K, first=None, only=None):
     """first: classes of the first calls (P pass, B bid, O double/redouble), to split the work over processes"""
     from bridge_env import Bid, BiddingPhase, BiddingPhaseState, Player, Vul
 
@@ -477,6 +477,13 @@ def case_bmc(props, dealer, K, first=None):
             eng.assume(z3.And(c >= 1, c <= 38))
         for c, cl in zip(cs, first or ()):
             eng.assume({'P': c == PASS, 'B': c <= 35, 'O': c >= X}[cl])
+        if only == 'PB':
+            # deep variant for the contract/declarer logic: bids and passes only (who declares does not depend on doubles) and
+            # the last three calls are passes (a contract is only reported once the auction has ended)
+            for c in cs:
+                eng.assume(c <= PASS)
+            for c in cs[-3:]:
+                eng.assume(c == PASS)
         obj = eng.construct(BiddingPhase, [Player(dealer), SEnum(Vul, v)], {})
         chk = []
 
@@ -550,7 +557,7 @@ def case_bmc(props, dealer, K, first=None):
     return hx.explore_case(path, dict(max_paths=400000))
 
 
-def build_cases(props, tier, K_quick, K_thorough):
+def build_cases(props, tier, K_quick, K_thorough, deep=None):
     cs = [(case_init, 'H0 constructor establishes the invariant', dict(props=props)),
           (case_step, 'H1 one call from an arbitrary live auction state', dict(props=props))]
     if 'C02' in props:
@@ -560,6 +567,12 @@ def build_cases(props, tier, K_quick, K_thorough):
         for first in [a + b + c for a in 'PBO' for b in 'PBO' for c in 'PBO']:
             cs.append((case_bmc, f'H2 BMC dealer={d} first three calls in classes {first} (P pass, B bid, O X/XX) K={K}',
                        dict(props=props, dealer=d, K=K, first=first)))
+    if deep:
+        Kd = deep[1] if tier == 'thorough' else deep[0]
+        for d in range(1, 5):
+            for first in [a + b + c for a in 'PB' for b in 'PB' for c in 'PB']:
+                cs.append((case_bmc, f'H2 deep BMC (bids and passes only, closing with three passes) dealer={d} first three calls {first} K={Kd}',
+                           dict(props=props, dealer=d, K=Kd, first=first, only='PB')))
     return cs
 
 
